@@ -22,6 +22,7 @@ EXPLANATION = (
     "installs exactly the saved value in a finally that covers the yield, and the saved value cannot be mutated through the "
     "setter (the setter rebinds a fresh object; no in-place mutation of the configuration object anywhere). NOT decided: "
     "reflexivity/symmetry on values with unusual __eq__ (NaN), equality of hashes for dicts that differ only in insertion order."
+    " Also decided (rules added after the fifth blind round): (R12.7) every element typedlist._pack writes is the packed form of a value of the element type, so equal lists pack (compare, hash) equally."
 )
 RULE_SUMMARY = "instances: (call site, override) pairs, field-type pack shapes, returns/uses, save/restore pairs; non-trivial = shape or path computed"
 
